@@ -422,6 +422,31 @@ def check(pid, tier, batch_seed):
         for inv in sorted(seen_inv)[:max_report]:
             cands = seen_inv[inv]
             done = False
+            open_f = [f for f in findings if f.get("status") == "open"]
+            if open_f and hasattr(mod, "tags"):
+                # a listed finding covers only the runs that carry its identifying tags: every
+                # run of the class is classified, un-minimised; the rest is reported as usual
+                unknown, matched = [], None
+                for r in cands:
+                    v0 = [v for v in r["viol"] if vcls(v) == inv][0]
+                    try:
+                        tg0 = mod.tags(mod.generate(r["seed"], tier), v0)
+                    except Exception:      # pragma: no cover
+                        tg0 = []
+                    kf0 = [f for f in open_f if finding_matches(f, pid, v0, tg0)]
+                    if kf0:
+                        matched = matched or (kf0[0], r)
+                    else:
+                        unknown.append(r)
+                if matched and not unknown:
+                    suppressed += 1
+                    say("KNOWN-FINDING: property=%s %s [%s] (re-found by search: %d runs, first run seed %d)" % (
+                        pid, matched[0]["what"], matched[0]["id"], len(cands), matched[1]["seed"]))
+                    continue
+                if matched:
+                    say("note: %d of %d runs of class %s match listed finding %s; the others are examined" % (
+                        len(cands) - len(unknown), len(cands), inv, matched[0]["id"]))
+                    cands = unknown
             for r in cands[:4]:
                 hs = hashseed_of(r["i"])
                 rec = mod.generate(r["seed"], tier)
